@@ -32,6 +32,7 @@ WITNESS = {
   'loopguard': ('samlang-optimization', 'crates/samlang-optimization/src/loop_induction_analysis.rs', 'wx/witness/samlang_optimization_loopguard.rs', 'verif_witness_search'),
   'ifchain': ('samlang-printer', 'crates/samlang-printer/src/lib.rs', 'wx/witness/samlang_printer_roundtrip.rs', 'verif_witness_search'),
   'checkgates': ('samlang-compiler', 'crates/samlang-compiler/src/lib.rs', 'wx/witness/samlang_compiler_lib.rs', 'verif_witness_search_errors'),
+  'visgate': ('samlang-compiler', 'crates/samlang-compiler/src/lib.rs', 'wx/witness/samlang_compiler_lib.rs', 'verif_witness_search_errors'),
   'depgraph': ('samlang-services', 'crates/samlang-services/src/dep_graph.rs', 'wx/witness/samlang_services_dep_graph.rs', 'verif_witness_search'),
 }
 
